@@ -2,179 +2,203 @@ MODULE kinds_mod
   IMPLICIT NONE
   INTEGER, PARAMETER :: jprb = SELECTED_REAL_KIND(13, 300)
   INTEGER, PARAMETER :: jpim = SELECTED_INT_KIND(9)
+  INTEGER, PARAMETER :: npar = 3
+  INTEGER, PARAMETER :: npar2 = 2
+  REAL(KIND=jprb), PARAMETER :: rpar = 1.5_jprb
 END MODULE kinds_mod
-MODULE kmod
-  USE kinds_mod, ONLY: JPRB
+MODULE KMOD
+  USE Kinds_mod, ONLY: jprb, NPAR, rpar
   IMPLICIT NONE
   TYPE ttype
-    REAL(KIND=jprb) :: P
-    REAL(KIND=JPRB) :: q(5)
+    REAL(KIND=JPRB) :: p
+    REAL(KIND=jprb) :: q(5)
     INTEGER :: KK
   END TYPE ttype
   CONTAINS
-  SUBROUTINE kern (n, m, a1, A2, c1, C2, k1, S1, s2, S3, i1, I2, LG1, t1)
-    USE kinds_mod, ONLY: jpim, Jprb
+  SUBROUTINE kern (n, m, A1, A2, c1, d1, k1, S1, s2, s3, i1, i2, lg1, T1)
+    ! Loki: parameters from kinds_mod inlined
     INTEGER, INTENT(IN) :: n
     INTEGER, INTENT(IN) :: m
-    REAL(KIND=jprb), INTENT(IN) :: a1(n)
-    REAL(KIND=Jprb), INTENT(INOUT) :: A2(n)
-    REAL(KIND=JPRB), INTENT(IN) :: c1(n, m)
-    REAL(KIND=jprb), INTENT(IN) :: C2(n, m)
-    INTEGER, INTENT(INOUT) :: k1(n)
-    REAL(KIND=Jprb), INTENT(IN) :: S1
-    REAL(KIND=jprb), INTENT(INOUT) :: s2
-    REAL(KIND=JPRB), INTENT(OUT) :: S3
+    REAL(KIND=SELECTED_REAL_KIND(13, 300)), INTENT(IN) :: A1(N)
+    REAL(KIND=SELECTED_REAL_KIND(13, 300)), INTENT(INOUT) :: A2(n)
+    REAL(KIND=SELECTED_REAL_KIND(13, 300)), INTENT(IN) :: c1(n, m)
+    REAL(KIND=SELECTED_REAL_KIND(13, 300)), INTENT(INOUT) :: d1(-1:n - 2)
+    INTEGER, INTENT(INOUT) :: k1(N)
+    REAL(KIND=SELECTED_REAL_KIND(13, 300)), INTENT(IN) :: S1
+    REAL(KIND=SELECTED_REAL_KIND(13, 300)), INTENT(INOUT) :: s2
+    REAL(KIND=SELECTED_REAL_KIND(13, 300)), INTENT(OUT) :: s3
     INTEGER, INTENT(IN) :: i1
-    INTEGER, INTENT(INOUT) :: I2
-    LOGICAL, INTENT(IN) :: LG1
-    TYPE(ttype), INTENT(INOUT) :: t1
-    REAL(KIND=jprb) :: X1
-    REAL(KIND=jprb) :: x2
-    INTEGER :: J1
-    LOGICAL :: Lg2
-    REAL(KIND=jprb) :: f1(4)
-    INTEGER :: i, J, K
-    REAL(KIND=JPRB) :: ZW(n), zs, zv(n, M)
-    REAL(KIND=jprb) :: zf(4)
-    INTEGER :: Jz, kz
-    REAL(KIND=jprb) :: zp, ZU1, zu2
-    REAL(KIND=JPRB) :: zq(1:N, 3, 1:2)
-    REAL(KIND=JPRB) :: sfn, sfx
-    Sfn(sfx) = sfx*2.0_jprb + 1.0_jprb
+    INTEGER, INTENT(INOUT) :: i2
+    LOGICAL, INTENT(IN) :: lg1
+    TYPE(ttype), INTENT(INOUT) :: T1
+    REAL(KIND=SELECTED_REAL_KIND(13, 300)) :: x1
+    REAL(KIND=SELECTED_REAL_KIND(13, 300)) :: x2
+    INTEGER :: j1
+    INTEGER :: j2
+    LOGICAL :: LG2
+    REAL(KIND=SELECTED_REAL_KIND(13, 300)) :: f1(4)
+    INTEGER :: I, j, k
+    REAL(KIND=SELECTED_REAL_KIND(13, 300)) :: zw(n), zs, zv(n, M)
+    REAL(KIND=SELECTED_REAL_KIND(13, 300)) :: zf(4)
+    INTEGER :: jz, kz
+    REAL(KIND=SELECTED_REAL_KIND(13, 300)) :: zp, ZU1, zu2
+    REAL(KIND=SELECTED_REAL_KIND(13, 300)) :: zq(n, 3, 2)
+    INTEGER, PARAMETER :: jploc = SELECTED_REAL_KIND(13, 300)
+    REAL(KIND=SELECTED_REAL_KIND(13, 300)) :: ZLOC
     INTEGER :: ii
-    ZQ = 0.75_jprb
-    Zw = 0.5_jprb
-    zv = 0.25_jprb
-    ZF = 1.0_jprb
-    zs = 0.0_jprb
-    zs = sfn(s1) + sfn(zs + 0.5_jprb)
-    s3 = 3.0_jprb
-    x1 = 0.25_jprb
-    X2 = 1.0_jprb
-    j1 = 3
-    LG2 = .false.
-    f1 = 10.0_jprb
-    IF (S2 <= T1%P + S1) THEN
-      T1%q(1) = MIN(MAX(c1(1, 1)*(F1(1) - c2(N, 1)), -50.0_jprb), 50.0_jprb)
-    ELSE IF (a1(N) >= 1.0_jprb .or. T1%P > s1) THEN
-      X1 = SIN(X1)
-      T1%kk = MIN(MAX(M + i2 + t1%KK, -40), 40)
-    ELSE
-      IF (.not.lg1) THEN
-        J1 = 4
-        DO WHILE (j1 > 0)
-          t1%Q(2) = (C2(N, m) + s3 + REAL(i2, kind=Jprb)) / (1.0_jprb + ABS(c2(n, m) + S3 + REAL(i2, kind=JPRB)))
-          j1 = j1 - 1
+    ZQ = 0.75_SELECTED_REAL_KIND(13, 300)
+    zw = 0.5_SELECTED_REAL_KIND(13, 300)
+    zv = 0.25_SELECTED_REAL_KIND(13, 300)
+    ZF = 1.0_SELECTED_REAL_KIND(13, 300)
+    ZS = 0.0_SELECTED_REAL_KIND(13, 300)
+    ZLOC = 1.0_jploc
+    S3 = 1.0_SELECTED_REAL_KIND(13, 300)
+    x1 = 3.0_SELECTED_REAL_KIND(13, 300)
+    X2 = 1.0_SELECTED_REAL_KIND(13, 300)
+    j1 = 11
+    J2 = 11
+    Lg2 = .false.
+    f1 = 1.0_SELECTED_REAL_KIND(13, 300)
+    DO i=1,n
+      lp1: DO J=1,n,2
+        a2(1:n - 1) = MIN(MAX(S2 + T1%P, -50.0_SELECTED_REAL_KIND(13, 300)), 50.0_SELECTED_REAL_KIND(13, 300))
+        DO k=n,1,-1
+          ! TODO
         END DO
-        CALL hsub(n, a1, T1%p, s3)
+        d1(i - 2) = 2.0_SELECTED_REAL_KIND(13, 300)*COS(REAL(I + j2, kind=SELECTED_REAL_KIND(13, 300)) + A1(i))
+      END DO lp1
+      IF (LG1) THEN
+        ASSOCIATE (Z00=>S1)
+          ! TODO
+          s3 = SUM(C1) / (1.0_SELECTED_REAL_KIND(13, 300) + REAL(N*m, kind=SELECTED_REAL_KIND(13, 300)))
+        END ASSOCIATE
+      ELSE IF (f1(1) >= x2 .and. m > j2) THEN
+        ! [Loki] inlined child subroutine: ISUB
+        ! =========================================
+        X1 = S1
+        DO ii=1,MIN(n, n)
+          X1 = X1 + xin(ii)*1.5_jprb
+        END DO
+        X1 = COS(X1)
+        T1%p = T1%p*0.5_jprb + X1
+        ! =========================================
       ELSE
-        DO I=1,N
-          a2 = SIN(a1)
-          A2 = SIN(1.5_jprb / (1.0_jprb + ABS(X1)))
-          a2(:) = SIN(t1%p)
-        END DO
-        IF (K1(1) / (1 + ABS(j1)) /= k1(N) + 3) THEN
-          s2 = (s3*t1%P - SIN(a1(1 + MOD(2, N)))) / (1.0_jprb + ABS(s3*t1%p - SIN(a1(1 + MOD(2, N)))))
-        ELSE IF (s1 <= t1%P) THEN
-          T1%q(5) = SIN(REAL(t1%KK, kind=jprb)**2)
-        ELSE
-          IF (t1%q(3) >= s3) LG2 = lg2
-          ! [Loki] inlined child subroutine: isub
-          ! =========================================
-          S2 = s1
-          DO ii=1,MIN(N, N)
-            S2 = S2 + xin(II)*0.25_jprb
-          END DO
-          S2 = COS(S2)
-          S3 = S3*0.5_jprb + S2
-          ! =========================================
-        END IF
+        s3 = 2.0_SELECTED_REAL_KIND(13, 300)*COS(((C1(I, 1) + c1(i, M))**2)**2)
       END IF
-      S3 = SUM(c2) / (1.0_jprb + REAL(n*M, kind=jprb))
-    END IF
-    s3 = MIN(MAX(hele(x2 / (1.0_jprb + ABS(X1)), INT(MAX(MIN(c2(1 + MOD(3, n), 1 + MOD(2, m)), 90.0_jprb), -90.0_jprb))) +  &
-    & (-0.5_jprb), -50.0_jprb), 50.0_jprb)
-    j1 = 5 + n
-!$loki outline
-    lg2 = .not.(T1%q(3) <= A1(1))
-!$loki end outline
-    CALL HLOW(n, ZQ(:, 1, :), zs)
-    DO Jz=1,n
-      ZW(jz) = a1(jz)*S1
-!$loki loop-fission
-      a2(JZ) = ZW(jz) + 0.25_jprb
+      SELECT CASE (MODULO(j2, 7))
+      CASE (3:4)
+        T1%Q(4) = MIN(MAX(REAL(i2 - (i + 1), kind=SELECTED_REAL_KIND(13, 300)), -50.0_SELECTED_REAL_KIND(13, 300)),  &
+        & 50.0_SELECTED_REAL_KIND(13, 300))
+        ! x = 1 ! y
+      CASE (0)
+        WHERE (A1 <= a1*A2) D1 =  &
+        & MIN(MAX(A1 + A1*10.0_SELECTED_REAL_KIND(13, 300), -50.0_SELECTED_REAL_KIND(13, 300) &
+        & ), 50.0_SELECTED_REAL_KIND(13, 300))
+      END SELECT
     END DO
-    zw(1:n) = A1(1:n) + 0.5_jprb
-    Zv(:, :) = ZV(:, :)*s1
-    ZW(:) = zw + A1
-!$loki loop-unroll depth( 1 )
-    DO JZ=1,2
-      DO kz=2,4,2
-        ZF(KZ) = ZF(KZ) + REAL(jz*kz, kind=jprb)
+    ! note: end do
+    lp2: DO i=2,m
+      ! [Loki] inlined child subroutine: ISUB
+      ! =========================================
+      x2 = S1
+      DO ii=1,MIN(n, n)
+        x2 = x2 + xin(ii)*1.5_jprb
       END DO
-    END DO
-!$loki loop-fusion group( g1 )
+      x2 = COS(x2)
+      s3 = s3*0.5_jprb + x2
+      ! =========================================
+      J2 = J2
+    END DO lp2
+    IF (.not.(n > 5)) THEN
+      DO i=1,m
+        ! note: end do
+        LG2 = D1(1 - 2) > MERGE(a1(1 + MOD(5, N)), C1(1, I), j2 > j1)
+        LP3: DO j=1,N
+          s2 = (EXP(-ABS(a2(j))) + f1(2)) / (1.0_SELECTED_REAL_KIND(13, 300) + ABS(EXP(-ABS(a2(j))) + f1(2)))
+        END DO LP3
+      END DO
+    ELSE
+      LG2 = .not.(c1(1 + MOD(5, n), 1) < 7.5_SELECTED_REAL_KIND(13, 300))
+    END IF
+    T1%p = MINVAL(f1) / (1.0_SELECTED_REAL_KIND(13, 300) + REAL(n*M, kind=SELECTED_REAL_KIND(13, 300)))
+    A2(1) = 2.0_SELECTED_REAL_KIND(13, 300)*COS(s1)
+    WHERE (A2 <= a1 / (1.0_SELECTED_REAL_KIND(13, 300) + ABS(d1)))
+      a2 =  &
+      & MIN(MAX(ABS(2.0_SELECTED_REAL_KIND(13, 300) - S3), -50.0_SELECTED_REAL_KIND(13, 300)), 50.0_SELECTED_REAL_KIND(13, 300))
+      a2 = SIN(3.0_SELECTED_REAL_KIND(13, 300))
+    END WHERE
+!$loki remove
+    zs = ZS + 1.0_SELECTED_REAL_KIND(13, 300)
     DO jz=1,n
-      zw(jz) = A1(jz) + S1
+      zw(jz) = ZS
     END DO
-!$loki loop-fusion group( g1 )
-    DO JZ=1,N
-      A2(Jz) = ZW(jz)*0.5_jprb
-    END DO
+!$loki end remove
+    CALL hdup(n, N, A1, zs)
     DO jz=1,N
-      zp = a1(Jz)*s1
-      ZW(JZ) = zp + 0.5_jprb
+      zp = a1(jz)*S1
+      zw(jz) = zp + 0.5_SELECTED_REAL_KIND(13, 300)
     END DO
 !$loki outline name( kern_o1 ) in( n,a1,s1 ) inout( a2 )
     DO jz=1,N
-      a2(JZ) = a2(JZ) + a1(jz)*s1
+      A2(jz) = a2(Jz) + a1(jz)*s1
     END DO
 !$loki end outline
-    CALL Hdup(n, n, a1, Zs)
-!$loki remove
-    zs = ZS + 1.0_jprb
+    CALL hlow(N, zq(:, 1, :), zs)
+    zs = hfun(S1, i1) + HFUN(zs, 2)
+!$loki loop-fusion group( g1 )
     DO jz=1,N
-      Zw(jz) = Zs
+      zw(JZ) = A1(jz) + s1
     END DO
-!$loki end remove
+!$loki loop-fusion group( g1 )
+    DO jz=1,n
+      a2(JZ) = zw(jz)*0.5_SELECTED_REAL_KIND(13, 300)
+    END DO
+    zw(1:N) = A1(1:N) + 0.5_SELECTED_REAL_KIND(13, 300)
+    Zv(:, :) = zv(:, :)*S1
+    zw(:) = ZW + a1
+!$loki loop-unroll depth( 1 )
+    DO JZ=1,2
+      DO KZ=2,4,2
+        zf(kz) = ZF(kz) + REAL(JZ*kz, kind=SELECTED_REAL_KIND(13, 300))
+      END DO
+    END DO
+    IF (LG1) THEN
+      zs = 3.0_SELECTED_REAL_KIND(13, 300)
+    ELSE
+      zs = s1
+    END IF
     CONTAINS
   END SUBROUTINE kern
-  SUBROUTINE hsub (nn, xin, XIO, Sout)
+  SUBROUTINE HSUB (nn, xin, xio, Sout)
     INTEGER, INTENT(IN) :: nn
     REAL(KIND=jprb), INTENT(IN) :: xin(NN)
-    REAL(KIND=JPRB), INTENT(INOUT) :: XIO
+    REAL(KIND=jprb), INTENT(INOUT) :: xio
     REAL(KIND=jprb), INTENT(OUT) :: Sout
     INTEGER :: ii
-    sout = 0.0_jprb
+    Sout = 0.0_jprb
     DO ii=1,nn
-      SOUT = SOUT + XIN(ii)*2.0_jprb
+      SOUT = SOUT + XIN(ii)*0.5_jprb
     END DO
-    SOUT = Sout / (1.0_jprb + REAL(nn, kind=jprb))
-    xio = SIN(Xio + sout)
-  END SUBROUTINE hsub
-  FUNCTION hfun (X, k) RESULT(r)
-    REAL(KIND=JPRB), INTENT(IN) :: X
+    SOUT = sout / (1.0_jprb + REAL(Nn, kind=JPRB))
+    xio = SIN(xio + SOUT)
+  END SUBROUTINE HSUB
+  FUNCTION Hfun (X, k) RESULT(r)
+    REAL(KIND=jprb), INTENT(IN) :: X
     INTEGER, INTENT(IN) :: k
     REAL(KIND=jprb) :: R
     r = x*7.5_jprb + REAL(MOD(k, 5), kind=jprb)
-    IF (k > 3) r = r - 3.0_jprb
-  END FUNCTION hfun
-  ELEMENTAL FUNCTION hele (X, K) RESULT(r)
-    REAL(KIND=jprb), INTENT(IN) :: X
-    INTEGER, INTENT(IN) :: K
-    REAL(KIND=jprb) :: r
-    r = COS(X) + REAL(k, kind=jprb)*0.25_jprb
-  END FUNCTION hele
-  SUBROUTINE HDUP (n1, n2, xin, sout)
+    IF (k > 3) R = r - 7.5_jprb
+  END FUNCTION Hfun
+  SUBROUTINE hdup (n1, n2, XIN, sout)
     INTEGER, INTENT(IN) :: n1, n2
-    REAL(KIND=JPRB), INTENT(IN) :: xin(N1)
+    REAL(KIND=JPRB), INTENT(IN) :: XIN(n1)
     REAL(KIND=jprb), INTENT(INOUT) :: sout
-    sout = SOUT + xin(1)*REAL(n2, kind=jprb)
-  END SUBROUTINE HDUP
-  SUBROUTINE hlow (NN, x2, sout)
-    INTEGER, INTENT(IN) :: NN
-    REAL(KIND=Jprb), INTENT(IN) :: x2(NN, 2)
+    SOUT = sout + XIN(1)*REAL(n2, kind=JPRB)
+  END SUBROUTINE hdup
+  SUBROUTINE HLOW (nn, X2, sout)
+    INTEGER, INTENT(IN) :: nn
+    REAL(KIND=JPRB), INTENT(IN) :: X2(nn, 2)
     REAL(KIND=jprb), INTENT(INOUT) :: sout
-    sout = Sout + x2(1, 1) + x2(NN, 2)
-  END SUBROUTINE hlow
-END MODULE kmod
+    sout = sout + X2(1, 1) + X2(Nn, 2)
+  END SUBROUTINE HLOW
+END MODULE KMOD
